@@ -116,17 +116,6 @@ Definition run_case (c : case) : bool :=
 Definition show_case (c : case) : res value :=
   let '(ins, ops, e) := c in run_ops ins ops (nth 0 ins dflt_arr).
 
-(* comparison with a relative tolerance for results of inexact floating-point arithmetic (mean,
-   var, std, interpolation): |model - implementation| <= 1e-9 * (1 + |model|) *)
-Definition cell_close (a b : cell) : bool :=
-  match a, b with
-  | CNum p, CNum q => Qle_bool (Qabs (p - q)) ((1 # 1000000000) * (1 + Qabs p))
-  | _, _ => cell_eqb a b
-  end.
-Definition nd_close (x y : nd) : bool :=
-  list_eqb Nat.eqb (sh x) (sh y) && kind_eqb (kd x) (kd y) && list_eqb cell_close (dat x) (dat y).
-Definition darr_close (x y : darr) : bool :=
-  list_eqb axis_eqb (axes x) (axes y) && nd_close (vals x) (vals y) && meta_eqb (attrs x) (attrs y).
 Definition outcome_close (r : res value) (e : expect) : bool :=
   match r, e with
   | Ok (VArr a), EVal (VArr b) => darr_close a b
